@@ -177,6 +177,9 @@ def _split_instruction_into_tokens(line: str) -> List[str]:
             else:
                 raise ParseError(f"missing closing qoute {line}")
         elif line[i : i + 2] == "//":
+            if start != i:
+                # the comment directly follows a token, without a space in between
+                fields.append(line[start:i])
             fields.append(line[i:])
             return fields
         else:
